@@ -139,11 +139,16 @@ def tpl_wraps_annot(ch):
 def tpl_sigattr(ch):
     inner = draw_inner(ch)
     shape = draw_wrap(ch)
-    how = ch.draw(3, 'sigattr-how')
+    how = ch.draw(5, 'sigattr-how')
+    handbuilt = ('signatures.UpgradedSignature([signatures.UpgradedParameter("m", inspect.Parameter.POSITIONAL_OR_KEYWORD), '
+                 'signatures.UpgradedParameter("rest", inspect.Parameter.VAR_POSITIONAL), '
+                 'signatures.UpgradedParameter("kw", inspect.Parameter.VAR_KEYWORD)])')
     setter = [
         'f.__signature__ = inspect.signature(target)',
         'f.__signature__ = signatures.signature(target)',
         'f.__signature__ = support.s("m, n=1, *args, **kwargs")',
+        'f.__signature__ = ' + handbuilt,
+        'SHARED = ' + handbuilt + '\nf.__signature__ = SHARED\ntarget.__signature__ = SHARED',
     ][how]
     wrapped_too = ch.draw(2, 'also-wrapped')
     src = (HEADER +
